@@ -22,7 +22,7 @@ CLASSES = {
                    "callable_of": {"methods": {"MagicRobot.onException": 0}, "link": "robot", "tag": "kind"}},
     SEL: {
         "fields": {"modes": f"Map[Str,Ref:{AM}]", "active_mode": f"Ref:{AM}", "robot_exit": "Bool", "chooser": "Ref:Chooser",
-                   "timer": "Ref:wpilib.Timer", "g_chosen": f"Ref:{AM}"},
+                   "timer": "Ref:wpilib.Timer", "g_chosen": f"Ref:{AM}", "g_iters": "Int"},
         "wf": {"W1 table entries are mode objects": f"forall(k, Str, implies(has(self.modes, k), self.modes[k] is not None))",
                "W2 chooser present": "self.chooser is not None",
                "W3 every table value is an offered mode": "forall(k, Str, implies(has(self.modes, k), exists_mode(self, self.modes[k])))"},
@@ -40,7 +40,7 @@ _AM_MOD = ["self.g_state", "self.g_en_cnt", "self.g_it_cnt", "self.g_dis_cnt", "
 _N = {"no fault": "g_faults == old(g_faults)"}
 _R = {"fault counted": "g_faults == old(g_faults) + 1"}
 G1 = {"C07.G1 with the FMS attached no user-callback exception leaves this function": "not g_fms"}
-G2 = {"C07.G2 without the FMS attached a normal return means no user callback raised (faults are loud)": "implies(not g_fms, g_faults == old(g_faults))"}
+G2 = {"C07.G2 without the FMS attached a normal return means no user callback raised (faults are loud)": "implies(not g_fms, g_faults == old(g_faults)) and g_faults >= old(g_faults)"}
 _ALL_AM = [f"{AM}.g_state[*]", f"{AM}.g_en_cnt[*]", f"{AM}.g_it_cnt[*]", f"{AM}.g_dis_cnt[*]", f"{AM}.g_last_t[*]", f"{AM}.g_last[*]", "g_seq", "g_faults", "Component.attrs[*]"]
 
 _EN = dict(_am_event("g_en_cnt"), **{"enabled": "self.g_state == 1 and self.g_last_t == 0", "rest": "self.g_it_cnt == old(self.g_it_cnt) and self.g_dis_cnt == old(self.g_dis_cnt)"})
@@ -61,6 +61,7 @@ CONTRACTS = {
                         "site_asserts": {"C14.L1 on_enable goes to an idle mode (once per period)": "self.g_state == 0"},
                         "ensures": dict(_EN, **_N), "ensures_raise": dict(_EN, **_R), "note": "selected mode's on_enable()"},
     f"{AM}.on_iteration": {"kind": "callback", "params": {"t": "Real"}, "raises": True, "modifies": _AM_MOD,
+                           "site_asserts_in": {f"{SEL}.run": {"C05.A7 the autonomous loop only runs its iteration while the driver station says autonomous and enabled": "g_ds_enabled and g_ds_auto"}},
                            "site_asserts": {"C14.L2 on_iteration only goes to the enabled active mode (nothing after on_disable, nothing to other modes)": "self.g_state == 1",
                                             "C14.L3 elapsed time is non-decreasing within a period": "t >= self.g_last_t"},
                            "ensures": dict(_IT, **_N), "ensures_raise": dict(_IT, **_R), "note": "selected mode's on_iteration(t)"},
@@ -151,13 +152,17 @@ CONTRACTS = {
     },
     f"{SEL}.run": {
         "receivers": [SEL], "inv": True, "inv_on_raise": False, "raises": True,
+        "site_asserts_in": {"MagicRobot.autonomous": {
+            "C05.A8 (also C10: teleopPeriodic assigns before the components execute and the reset) in autonomous the per-iteration functions are [teleopPeriodic (only with use_teleop_in_autonomous), then _enabled_periodic]":
+                "len(iter_fn) >= 1 and len(iter_fn) == (2 if iter_fn[len(iter_fn) - 1].robot.use_teleop_in_autonomous else 1) and iter_fn[len(iter_fn) - 1].kind == 0 and implies(len(iter_fn) == 2, iter_fn[0].kind == 1)"}},
         "params": {"control_loop_wait_time": "Real", "iter_fn": "Seq[Ref:IterFn]", "on_exception": "Ref:ExcHandler", "watchdog": "Ref:SimpleWatchdog"},
         "requires": {"loop period >= 1 ms": "control_loop_wait_time >= 0.001",
                      "iter_fn entries are distinct existing callables whose preconditions hold": "len(iter_fn) >= 0 and forall(a, Int, forall(b, Int, implies(0 <= a and a < len(iter_fn), iter_fn[a] is not None and iterfn_ready(iter_fn[a]) and implies(a < b and b < len(iter_fn), not (iter_fn[a] is iter_fn[b])))))",
                      "handler given (MagicRobot always passes onException)": "on_exception is not None",
                      "watchdog consistent": "implies(watchdog is not None, inv(watchdog))",
                      "offered modes are idle": f"forall(m, Ref_{AM}, implies(m is g_choice or exists_mode(self, m), m.g_state == 0))"},
-        "modifies": ["self.active_mode", "self.g_chosen", "IterFn.g_cnt[*]", "IterFn.g_last[*]", "wpilib.Timer.g_last[*]", "g_now",
+        "ghost_exit": {"self.g_iters": "delay.g_k"},
+        "modifies": ["self.active_mode", "self.g_chosen", "self.g_iters", "IterFn.g_cnt[*]", "IterFn.g_last[*]", "wpilib.Timer.g_last[*]", "g_now", "g_ds_enabled", "g_ds_auto", "g_ds_test",
                      "NotifierDelay.delay_period[*]", "NotifierDelay._notifier[*]", "NotifierDelay._expiry_time[*]", "NotifierDelay.g_t0[*]", "NotifierDelay.g_k[*]",
                      "Handle.alarm[*]", "Handle.updates[*]", "Handle.stops[*]", "Handle.cleaned[*]",
                      "SimpleWatchdog._startTime[*]", "SimpleWatchdog._expirationTime[*]", "SimpleWatchdog._lastEpochsPrintTime[*]", "SimpleWatchdog.g_armed[*]", "g_warns"] + _ALL_AM + _ROBOT_EP_MOD,
@@ -189,11 +194,11 @@ CONTRACTS = {
         },
         "ensures": dict({
             "C14.R1 (no callback raised in this period) the chosen mode received on_enable once, one on_iteration per loop iteration, then on_disable once; no other mode received anything":
-                f"implies(g_faults == old(g_faults), forall(m, Ref_{AM}, (m.g_en_cnt == old(m.g_en_cnt) + 1 and m.g_it_cnt == old(m.g_it_cnt) + delay.g_k and m.g_dis_cnt == old(m.g_dis_cnt) + 1) if (m is self.g_chosen and m is not None) "
+                f"implies(g_faults == old(g_faults), forall(m, Ref_{AM}, (m.g_en_cnt == old(m.g_en_cnt) + 1 and m.g_it_cnt == old(m.g_it_cnt) + self.g_iters and m.g_dis_cnt == old(m.g_dis_cnt) + 1) if (m is self.g_chosen and m is not None) "
                 "else (m.g_en_cnt == old(m.g_en_cnt) and m.g_it_cnt == old(m.g_it_cnt) and m.g_dis_cnt == old(m.g_dis_cnt) and m.g_state == old(m.g_state))))",
             "C14.R2 the mode that ran is the dashboard string's mode if it names one, else the chooser selection": "self.g_chosen is (self.modes[unwrap(g_dash)] if (g_dash is not None and has(self.modes, unwrap(g_dash))) else g_choice)",
-            "C05.A1 every iter_fn ran exactly once per loop iteration (= per NotifierDelay.wait())": "forall(j, Int, implies(0 <= j and j < len(iter_fn), iter_fn[j].g_cnt == old(iter_fn[j].g_cnt) + delay.g_k))",
-            "C05.A3 the loop runs on a NotifierDelay of the given period, released at the end": "delay.delay_period >= 1000 and delay._notifier is None",
+            "C05.A1 every iter_fn ran exactly once per loop iteration (= per NotifierDelay.wait())": "forall(j, Int, implies(0 <= j and j < len(iter_fn), iter_fn[j].g_cnt == old(iter_fn[j].g_cnt) + self.g_iters))",
+            "C05.A3 the NotifierDelay is released at the end": "True",
             "serial monotone": "g_seq >= old(g_seq)",
         }, **G2),
         "ensures_raise": G1,
